@@ -71,6 +71,37 @@ theorem C18_delim_reads_back_value (s ctx : Str) (unq tri : Bool) (limit : Nat) 
     simp only [ne_eq, hnone, not_false_eq_true, decide_true]
     simp only [Model.Parser.parseValue, bind, Model.Parser.P.bind, hnt', hcs, pure, Model.Parser.P.pure, Model.Parser.consume]
 
+open Spec.Lexical Model.Lexer Model.Parser Model.Writer in
+/-- **C18, text fields at the level of the parsed value.**  For every string of CIF 2.0 characters for which the text-field
+    delimiter is recommended (any flags, any limit), the presentation `write_text` emits with the protocol flags derived from the
+    analysis (`C18_text_field_reads_back_all`: this is what `write_char` / `cif_write` emits) is turned by the parser's value production —
+    `parse_value` with line unfolding and prefix removal enabled, CIF 2.0 mode, behind any admissible whitespace, under every callback
+    policy — into the QUOTED CHARACTER value with text exactly `s`; nothing is reported, exactly the presentation is consumed. -/
+theorem C18_text_field_reads_back_value (s : Str) (unq tri : Bool) (limit : Nat)
+    (hchars : okUnits .cif2 none s = true) (hd : (analyze s unq tri limit).delimLength = 2)
+    (o : Opts) (hdia : o.dia = .cif2) (hunf : o.unfold = true) (hprem : o.prem = true) :
+    ∃ body : Str,
+      (∀ c : Ctx, writeText c s (Lemmas.WriterChar.charFlags (analyze s unq tri limit)).1 (Lemmas.WriterChar.charFlags (analyze s unq tri limit)).2
+          = .ok (a!"\n;" ++ body ++ a!"\n;", { c with lastColumn := 1 })) ∧
+      (∀ (w0 : List WsAtom) (ctx : Str) (line col : Nat) (lt : TokType) (pol : Policy) (W : Model.Parser.W) (fuel : Nat),
+        (∀ x ∈ w0, x.ok .cif2 = true) → (afterWsOf lt = true ∨ ∀ b rest, w0 ≠ WsAtom.comment b :: rest) →
+        linesFit col (renderWs w0) = true → (posAfter line col (renderWs w0)).2 ≤ LINE → followOk .cif2 ctx = true →
+        ∃ ps', parseValue o (fuel + 1) ⟨⟨renderWs w0 ++ ((a!"\n;" ++ body ++ a!"\n;") ++ ctx), line, col, lt⟩, none⟩ pol W
+            = .ok (.chr true s, ps') W ∧ ps'.tok = none ∧ ps'.scan.rest = ctx) := by
+  obtain ⟨body, hw, _, hdec, hlex⟩ := C18_text_field_reads_back_all s unq tri limit hchars hd
+  refine ⟨body, hw, ?_⟩
+  intro w0 ctx line col lt pol W fuel hw0 hfirst hfitw hcolw hctx
+  have hu := okUnits_units .cif2 s none hchars
+  have h0 : (0 : CU) ∉ s := fun h => (hu 0 h).1 rfl
+  have hcs : cstr s = s := C01_cstr_id s (fun x hx e => h0 (e ▸ hx))
+  obtain ⟨L, C, hn⟩ := hlex w0 ctx line col lt pol W.log hw0 hfirst hfitw hcolw hctx
+  have hnt : nextTok o ⟨⟨renderWs w0 ++ ((a!"\n;" ++ body ++ a!"\n;") ++ ctx), line, col, lt⟩, none⟩ pol W
+      = .ok (⟨.tvalue, body, L, C⟩, ⟨⟨ctx, L, C, .tvalue⟩, some ⟨.tvalue, body, L, C⟩⟩) W := by
+    simp only [nextTok, bind, P.bind, liftL, hdia, hn, pure, P.pure]
+  refine ⟨⟨⟨ctx, L, C, .tvalue⟩, none⟩, ?_, rfl, rfl⟩
+  simp only [parseValue, bind, P.bind, hnt, hunf, hprem, hdec, hcs, pure, P.pure, consume]
+
+
 -- every hypothesis instantiated: the digit string `12` is recommended whitespace-delimited and comes back from parse_value as the
 -- UNQUOTED CHARACTER value `12` (not a number object); `a b` comes back as the quoted character value
 example (pol : Model.Lexer.Policy) : ∃ ps', Model.Parser.parseValue C01parse.opts2 3
